@@ -629,3 +629,183 @@ def loop_program(shape, contexts):
     if shape == "operator-car":
         return ["(define (loop fs i n) (if (< i n) %s i))" % wrap("((car fs) fs (+ i 1) n)")], "(loop (list loop) 0 %d)"
     raise ValueError(shape)
+
+
+# ------------------------------------------------------------------------------------------
+# C04: syntax-rules rule sets and uses inside the expander's supported class
+# ------------------------------------------------------------------------------------------
+MACRO_LITERALS = ["else", "=>"]
+MACRO_VARS = ["a", "b", "c", "d", "e", "f"]
+MACRO_DATA = ["1", "2", "#t", "\"s\"", "#\\x"]
+
+
+class MacroGen:
+    def __init__(self, rng):
+        self.rng = rng
+
+    # a pattern is a python tree: ("var", n) ("any",) ("lit", n) ("datum", text) ("list", [items], ell)
+    # ("vec", [items], ell); ell = the last item is followed by an ellipsis
+    def pattern_items(self, depth, vars_left, under_ellipsis=False):
+        r = self.rng
+        n = r.randint(0 if depth else 1, 3)
+        items = []
+        for _ in range(n):
+            items.append(self.pattern(depth, vars_left, under_ellipsis))
+        ell = False
+        if not under_ellipsis and items and r.random() < 0.45 and vars_left:
+            # the element under the ellipsis: a variable or a list of variables
+            if r.random() < 0.6:
+                items.append(("var", vars_left.pop()))
+            else:
+                k = r.randint(1, 2)
+                sub = [("var", vars_left.pop()) for _ in range(min(k, len(vars_left)))]
+                if not sub:
+                    return items, False
+                items.append(("list", sub, False))
+            ell = True
+        return items, ell
+
+    def pattern(self, depth, vars_left, under_ellipsis=False):
+        r = self.rng
+        k = r.random()
+        if k < 0.4 and vars_left:
+            return ("var", vars_left.pop())
+        if k < 0.5:
+            return ("any",)
+        if k < 0.62:
+            return ("lit", r.choice(MACRO_LITERALS))
+        if k < 0.74:
+            return ("datum", r.choice(MACRO_DATA))
+        if depth > 0 and k < 0.92:
+            items, ell = self.pattern_items(depth - 1, vars_left, under_ellipsis)
+            return ("list", items, ell)
+        if depth > 0:
+            items, ell = self.pattern_items(depth - 1, vars_left, under_ellipsis)
+            return ("vec", items, ell)
+        return ("datum", r.choice(MACRO_DATA))
+
+    def render_pattern(self, p):
+        t = p[0]
+        if t == "var":
+            return p[1]
+        if t == "any":
+            return "_"
+        if t == "lit":
+            return p[1]
+        if t == "datum":
+            return p[1]
+        inner = " ".join(self.render_pattern(x) for x in p[1]) + (" ..." if p[2] else "")
+        return ("(%s)" if t == "list" else "#(%s)") % inner
+
+    def pattern_vars(self, p, under=False, out=None):
+        """variable -> True if under an ellipsis"""
+        if out is None:
+            out = {}
+        t = p[0]
+        if t == "var":
+            out[p[1]] = under
+        elif t in ("list", "vec"):
+            for i, x in enumerate(p[1]):
+                self.pattern_vars(x, under or (p[2] and i == len(p[1]) - 1), out)
+        return out
+
+    def ellipsis_groups(self, p, out=None):
+        """lists of variables that sit under the same ellipsis"""
+        if out is None:
+            out = []
+        if p[0] in ("list", "vec"):
+            for i, x in enumerate(p[1]):
+                if p[2] and i == len(p[1]) - 1:
+                    out.append(sorted(self.pattern_vars(x, True)))
+                else:
+                    self.ellipsis_groups(x, out)
+        return out
+
+    def template(self, pvars, groups, depth):
+        r = self.rng
+        plain = [v for v, u in pvars.items() if not u]
+        k = r.random()
+        if k < 0.3 and plain:
+            return r.choice(plain)
+        if k < 0.4:
+            return r.choice(MACRO_DATA + ["k", "q"])
+        if k < 0.5:
+            # a free symbol that other rules may use as a pattern variable
+            return r.choice(MACRO_VARS)
+        if depth <= 0:
+            return r.choice(plain) if plain else r.choice(MACRO_DATA)
+        items = []
+        for _ in range(r.randint(0, 3)):
+            items.append(self.template(pvars, groups, depth - 1))
+        for g in groups:
+            if r.random() < 0.7:
+                if len(g) == 1 or r.random() < 0.5:
+                    items.append("%s ..." % r.choice(g))
+                else:
+                    items.append("(%s) ..." % " ".join(r.sample(g, len(g)) + (["k"] if r.random() < 0.3 else [])))
+        r.shuffle(items)
+        return ("(%s)" if r.random() < 0.85 else "#(%s)") % " ".join(items)
+
+    def rule(self, kw):
+        r = self.rng
+        vars_left = list(MACRO_VARS)
+        r.shuffle(vars_left)
+        items, ell = self.pattern_items(2, vars_left)
+        pat = ("list", items, ell)
+        pvars = self.pattern_vars(pat)
+        groups = self.ellipsis_groups(pat)
+        tmpl = self.template(pvars, groups, 2)
+        text = "((%s %s) '%s)" % (kw, self.render_pattern(pat)[1:-1], tmpl)
+        return pat, text
+
+    # uses
+    def datum(self, depth):
+        r = self.rng
+        k = r.random()
+        if k < 0.3:
+            return str(r.randint(0, 9))
+        if k < 0.5:
+            return r.choice(["x", "y", "z", "else", "=>"])
+        if k < 0.6:
+            return r.choice(MACRO_DATA)
+        if depth <= 0:
+            return "w"
+        inner = " ".join(self.datum(depth - 1) for _ in range(r.randint(0, 3)))
+        return ("(%s)" if r.random() < 0.8 else "#(%s)") % inner
+
+    def instance(self, p, mutate):
+        r = self.rng
+        t = p[0]
+        if mutate and r.random() < 0.12:
+            return self.datum(1)
+        if t in ("var", "any"):
+            return self.datum(2)
+        if t == "lit":
+            return p[1]
+        if t == "datum":
+            return p[1]
+        items = []
+        for i, x in enumerate(p[1]):
+            if p[2] and i == len(p[1]) - 1:
+                n = r.choice([1, 1, 2, 3, 4]) if not mutate else r.choice([0, 1, 2, 3])
+                for _ in range(n):
+                    items.append(self.instance(x, mutate))
+            else:
+                items.append(self.instance(x, mutate))
+        if mutate and items and r.random() < 0.15:
+            items.pop(r.randrange(len(items)))
+        if mutate and r.random() < 0.1:
+            items.insert(r.randint(0, len(items)), self.datum(1))
+        return ("(%s)" if t == "list" else "#(%s)") % " ".join(items)
+
+    def macro_case(self, nrules, nuses):
+        kw = "m"
+        rules = [self.rule(kw) for _ in range(nrules)]
+        lits = " ".join(MACRO_LITERALS)
+        definition = "(define-syntax %s (syntax-rules (%s) %s))" % (kw, lits, " ".join(t for _, t in rules))
+        uses = []
+        for _ in range(nuses):
+            pat, _ = self.rng.choice(rules)
+            inner = self.instance(pat, self.rng.random() < 0.35)
+            uses.append("(%s %s)" % (kw, inner[1:-1]) if inner.startswith("(") else "(%s %s)" % (kw, inner))
+        return definition, uses
